@@ -19,6 +19,7 @@ func init() {
 				ruleErrFlowCone(c, "ERRFLOW", mutationRoots(c.P), mutationConePkgs, 300)
 			}},
 			{"EVENT-ONSUCCESS", ruleEventOnSuccess},
+			{"COMMIT-CALLBACKS", ruleCommitCallbacks},
 			{"ITER-CLOSE", func(c *eng.Ctx) { ruleIterClose(c, "ITER-CLOSE", mutationConePkgs, 15) }},
 			{"USE-AFTER-ERR", func(c *eng.Ctx) { ruleUseAfterErr(c, "USE-AFTER-ERR", mutationConePkgs) }},
 			{"TXN-SOURCE", ruleTxnSource},
@@ -543,4 +544,164 @@ func publishesUpdate(info *types.Info, fd *ast.FuncDecl, call *ast.CallExpr, upd
 		return true
 	})
 	return found
+}
+
+// ---------------------------------------------------------------------------------------------
+// COMMIT-CALLBACKS (shared with C20): the success callbacks of a transaction run only when the
+// underlying store commit returned nil, and nothing but Commit reads them.
+
+func ruleCommitCallbacks(c *eng.Ctx) {
+	const rule = "COMMIT-CALLBACKS"
+	commit := c.Anchor(rule, "internal/datastore.(*BasicTxn).Commit")
+	if commit == nil {
+		return
+	}
+	isFnsField := func(info *types.Info, e ast.Expr, names ...string) bool {
+		se, ok := ast.Unparen(e).(*ast.SelectorExpr)
+		if !ok {
+			return false
+		}
+		v, ok := info.Uses[se.Sel].(*types.Var)
+		if !ok || !v.IsField() {
+			return false
+		}
+		for _, n := range names {
+			if se.Sel.Name == n && eng.TypeName(info.TypeOf(se.X)) == "internal/datastore.BasicTxn" {
+				return true
+			}
+		}
+		return false
+	}
+	mentionsFns := func(info *types.Info, n ast.Node, names ...string) bool {
+		found := false
+		ast.Inspect(n, func(m ast.Node) bool {
+			if e, ok := m.(ast.Expr); ok && isFnsField(info, e, names...) {
+				found = true
+			}
+			return !found
+		})
+		return found
+	}
+	// 1. readers/writers of the callback lists are confined
+	allowed := map[string]string{
+		"Commit": "", "OnSuccess": "successFns", "OnSuccessAsync": "successAsyncFns", "OnError": "errorFns", "OnErrorAsync": "errorAsyncFns",
+	}
+	n := 0
+	for _, fi := range c.P.FuncsIn("internal/datastore") {
+		if fi.Decl.Body == nil || strings.HasSuffix(fi.File.Name.Name, "_test") || strings.HasSuffix(c.P.Fset.Position(fi.Decl.Pos()).Filename, "_test.go") {
+			continue
+		}
+		info := fi.Pkg.TypesInfo
+		if !mentionsFns(info, fi.Decl.Body, "successFns", "successAsyncFns", "errorFns", "errorAsyncFns") {
+			continue
+		}
+		n++
+		base := fi.Decl.Name.Name
+		only, ok := allowed[base]
+		good := ok && strings.Contains(fi.Name, "(*BasicTxn)")
+		if good && only != "" {
+			for _, other := range []string{"successFns", "successAsyncFns", "errorFns", "errorAsyncFns"} {
+				if other != only && mentionsFns(info, fi.Decl.Body, other) {
+					good = false
+				}
+			}
+		}
+		c.Check(good, rule, shortFn(fi)+":callback-lists-confined", fi.Decl.Pos(), "touches only its own callback list",
+			"a function other than Commit and the matching On* registrar touches the success/error callback lists: callbacks may run (or be dropped) independently of the commit's outcome")
+	}
+	c.Floor(rule, n, 5)
+	// 2. in Commit: under "store commit failed" no success list is read; under "store commit succeeded" no error list is read
+	info := commit.Pkg.TypesInfo
+	flow := eng.NewFlow(info, commit.Decl.Body)
+	var def ast.Node
+	var errObj types.Object
+	ast.Inspect(commit.Decl.Body, func(m ast.Node) bool {
+		as, ok := m.(*ast.AssignStmt)
+		if !ok || len(as.Rhs) != 1 || len(as.Lhs) != 1 {
+			return true
+		}
+		call, ok := ast.Unparen(as.Rhs[0]).(*ast.CallExpr)
+		if !ok {
+			return true
+		}
+		if se, ok := call.Fun.(*ast.SelectorExpr); ok && se.Sel.Name == "Commit" && isStorageCallee(info, call) {
+			def, errObj = as, eng.ObjOf(info, as.Lhs[0])
+		}
+		return true
+	})
+	if def == nil || errObj == nil {
+		c.Bad(rule, "Commit:store-commit-error-bound", commit.Decl.Pos(), "BasicTxn.Commit does not bind the error of the store transaction's Commit to a variable: the callbacks cannot depend on the outcome")
+		return
+	}
+	c.OK(rule, "Commit:store-commit-error-bound", def.Pos(), "error of the store commit bound to "+errObj.Name())
+	start, _ := flow.PointOf(def)
+	for _, tc := range []struct {
+		nonNil bool
+		lists  []string
+		key    string
+		bad    string
+	}{
+		{true, []string{"successFns", "successAsyncFns"}, "Commit:failed⇒no-success-callbacks", "on a path where the store commit returned an error the success callbacks are selected: update events are published, documents marked clean and schema caches swapped for a transaction that was not stored"},
+		{false, []string{"errorFns", "errorAsyncFns"}, "Commit:succeeded⇒no-error-callbacks", "on a path where the store commit succeeded the error callbacks are selected"},
+	} {
+		var at token.Pos
+		hit := flow.Forward(start, false, eng.Walk{
+			Visit: func(pt eng.Point, n ast.Node) eng.Action {
+				if mentionsFns(info, n, tc.lists...) {
+					at = n.Pos()
+					return eng.Hit
+				}
+				// reassignment of the error variable ends the knowledge
+				if as, ok := n.(*ast.AssignStmt); ok && as != def {
+					for _, l := range as.Lhs {
+						if eng.ObjOf(info, l) == errObj {
+							return eng.Cut
+						}
+					}
+				}
+				return eng.Continue
+			},
+			Edge: func(cond ast.Expr, taken bool) bool {
+				t := eng.EvalBool(info, cond, func(e ast.Expr) eng.Tri {
+					if is, nonNilWhenTrue := eng.ErrNilTest(info, e, errObj); is {
+						return eng.TriOf(nonNilWhenTrue == tc.nonNil)
+					}
+					return eng.Unknown
+				})
+				switch t {
+				case eng.True:
+					return taken
+				case eng.False:
+					return !taken
+				}
+				return true
+			},
+		})
+		pos := def.Pos()
+		if hit {
+			pos = at
+		}
+		c.Check(!hit, rule, tc.key, pos, "callback selection follows the store commit's outcome exactly", tc.bad)
+	}
+	// 3. Commit returns the store commit's error on every exit
+	lost, where := flow.ExitsWithout(start, false, func(n ast.Node) bool {
+		r, ok := n.(*ast.ReturnStmt)
+		if !ok {
+			return false
+		}
+		m := false
+		ast.Inspect(r, func(x ast.Node) bool {
+			if id, ok := x.(*ast.Ident); ok && info.Uses[id] == errObj {
+				m = true
+			}
+			return true
+		})
+		return m
+	}, nil)
+	c.Check(!lost, rule, "Commit:returns-store-commit-error", where, "every exit returns the store commit's error", "an exit of Commit does not return the store commit's error: the caller treats an unstored transaction as committed")
+}
+
+func isStorageCallee(info *types.Info, call *ast.CallExpr) bool {
+	f := eng.Callee(info, call)
+	return f != nil && eng.IsStorageFunc(f)
 }
